@@ -60,6 +60,7 @@ type Engine struct {
 	returns      int
 	frame        *frameInfo
 	curProp      string
+	curCallee    *ssa.Function // static callee of the contract call being applied (nil: dynamic)
 	mergeInlined bool
 	deadline     time.Time
 	funcBudgetS  int
@@ -72,12 +73,12 @@ type frameObj struct {
 
 // frameInfo is the resolved modifies clause of the function under verification.
 type frameInfo struct {
-	all    bool
-	ghosts bool // `modifies ghosts`: every ghost variable may change
-	except []string // `modifies * except T`: heap key prefixes that must stay unchanged
+	all        bool
+	ghosts     bool     // `modifies ghosts`: every ghost variable may change
+	except     []string // `modifies * except T`: heap key prefixes that must stay unchanged
 	exceptKeys []string
-	keys map[string]bool
-	objs []frameObj
+	keys       map[string]bool
+	objs       []frameObj
 }
 
 type Frame struct {
